@@ -58,11 +58,15 @@ func (b *blk) MakeBlockId() ([]byte, error) {
 	return b.Blockid, nil
 }
 
-// stubLedger is a linear chain (height = index).
+// stubLedger is a linear chain (height = index). state holds, per block id, the contract storage as of
+// that block (what a snapshot created at the block reads): bucket + "/" + key -> value.
 type stubLedger struct {
 	chain []*blk
 	byID  map[string]*blk
 	conf  []byte
+	state map[string]map[string][]byte
+	// snapServed counts the snapshot reads that returned a recorded (non-empty) value
+	snapServed int
 }
 
 func newStubLedger(genesisTs int64) *stubLedger {
@@ -94,22 +98,67 @@ func (l *stubLedger) QueryBlockByHeight(h int64) (ledger.BlockHandle, error) {
 	return l.chain[h], nil
 }
 
-type emptySnapshot struct{}
+// putState records the contract storage as of block b (a copy of the parent's storage plus the writes).
+func (l *stubLedger) putState(b *blk, writes map[string][]byte) {
+	if l.state == nil {
+		l.state = map[string]map[string][]byte{}
+	}
+	st := map[string][]byte{}
+	if p, ok := l.byID[string(b.PreHash)]; ok {
+		for k, v := range l.state[string(p.Blockid)] {
+			st[k] = v
+		}
+	}
+	for k, v := range writes {
+		st[k] = v
+	}
+	l.state[string(b.Blockid)] = st
+}
 
-func (emptySnapshot) Get(string, []byte) ([]byte, error) { return nil, nil }
+// blockReader is the snapshot of the contract storage at one block, with the answers of the real
+// xmodel snapshot (bcs/ledger/xledger/state/xmodel/xmodel_snapshot.go): a key that was never written
+// reads as a versioned datum without a value, not as an error.
+type blockReader struct {
+	l  *stubLedger
+	id string
+}
 
-type emptyReader struct{}
+func (r blockReader) Get(bucket string, key []byte) (*ledger.VersionedData, error) {
+	v, ok := r.l.state[r.id][bucket+"/"+string(key)]
+	if !ok || v == nil {
+		return &ledger.VersionedData{PureData: &ledger.PureData{Bucket: bucket, Key: key}}, nil
+	}
+	r.l.snapServed++
+	return &ledger.VersionedData{PureData: &ledger.PureData{Bucket: bucket, Key: key, Value: v},
+		RefTxid: []byte("c16-tx-" + r.id)}, nil
+}
+func (blockReader) Select(string, []byte, []byte) (ledger.XMIterator, error) {
+	return nil, errors.New("xmodel snapshot temporarily not supported select")
+}
 
-func (emptyReader) Get(string, []byte) (*ledger.VersionedData, error) { return nil, nil }
-func (emptyReader) Select(string, []byte, []byte) (ledger.XMIterator, error) {
-	return nil, errors.New("not supported")
+// tipReader is kernel/ledger.XMSnapshotReader over the tip (xmodel.NewXMSnapshotReader: PureData.Value).
+type tipReader struct{ r blockReader }
+
+func (t tipReader) Get(bucket string, key []byte) ([]byte, error) {
+	v, err := t.r.Get(bucket, key)
+	if err != nil {
+		return nil, err
+	}
+	return v.PureData.Value, nil
 }
 
 func (l *stubLedger) GetTipXMSnapshotReader() (ledger.XMSnapshotReader, error) {
-	return emptySnapshot{}, nil
+	return tipReader{blockReader{l, string(l.tip().Blockid)}}, nil
 }
-func (l *stubLedger) CreateSnapshot([]byte) (ledger.XMReader, error) { return emptyReader{}, nil }
-func (l *stubLedger) GetTipSnapshot() (ledger.XMReader, error)       { return emptyReader{}, nil }
+func (l *stubLedger) CreateSnapshot(id []byte) (ledger.XMReader, error) {
+	if _, ok := l.byID[string(id)]; !ok {
+		return nil, errNoBlock
+	}
+	return blockReader{l, string(id)}, nil
+}
+func (l *stubLedger) GetTipSnapshot() (ledger.XMReader, error) {
+	return blockReader{l, string(l.tip().Blockid)}, nil
+}
 
 // stubNet answers PeerInfo only (the plugins without chained-bft use nothing else).
 type stubNet struct {
@@ -138,8 +187,10 @@ func newCtx(l *stubLedger, self *fx.Key) cctx.ConsensusCtx {
 	return c
 }
 
-func consCfg(name, conf string) def.ConsensusConfig {
-	return def.ConsensusConfig{ConsensusName: name, Config: conf, StartHeight: 1, Index: 0}
+func consCfg(name, conf string) def.ConsensusConfig { return consCfgAt(name, conf, 1) }
+
+func consCfgAt(name, conf string, start int64) def.ConsensusConfig {
+	return def.ConsensusConfig{ConsensusName: name, Config: conf, StartHeight: start, Index: 0}
 }
 
 // checkClass runs CheckMinerMatch and returns the result class: "ok", "rej" or "panic".
